@@ -128,6 +128,19 @@ def build_table(repo_root: Path, units):
                     allq.append(q)
         names(tree.body, "")
         table.setdefault("__functions__", {})[rel] = allq
+        nested = {}
+
+        def nest(body, prefix):
+            for st in body:
+                if isinstance(st, ast.ClassDef):
+                    nest(st.body, prefix + st.name + ".")
+                elif isinstance(st, (ast.FunctionDef, ast.AsyncFunctionDef)):
+                    inner = [n.name for n in ast.walk(st) if n is not st and isinstance(n, (ast.FunctionDef, ast.AsyncFunctionDef))]
+                    if inner:
+                        nested[prefix + st.name] = inner
+        nest(tree.body, "")
+        if nested:
+            table.setdefault("__nested__", {})[rel] = nested
     return table
 
 
@@ -470,8 +483,9 @@ def _simple_helper(fn):
     body = [st for st in fn.body if not (isinstance(st, ast.Expr) and isinstance(st.value, ast.Constant))]
     if not body:
         return False
+    in_defaults = {id(x) for d in list(fn.args.defaults) + [k for k in fn.args.kw_defaults if k is not None] for x in ast.walk(d)}
     for n in ast.walk(fn):
-        if n is fn:
+        if n is fn or id(n) in in_defaults:
             continue
         if isinstance(n, (ast.FunctionDef, ast.AsyncFunctionDef, ast.ClassDef, ast.Lambda, ast.Yield, ast.YieldFrom, ast.Global,
                           ast.Nonlocal, ast.Try, ast.With)):
@@ -522,7 +536,9 @@ def inline_new_helpers(tree, rel):
                     else:
                         helpers[(st.name, m.name)] = m
     helpers = {k: v for k, v in helpers.items() if _simple_helper(v)}
-    if not helpers:
+    has_new_local = any(isinstance(st, ast.FunctionDef) and st.name not in load_table().get("__nested__", {}).get(rel, {}).get(q, [])
+                        for q, fn, cls in known for st in fn.body)
+    if not helpers and not has_new_local:
         return []
     done = []
     counter = [0]
@@ -721,6 +737,35 @@ def inline_new_helpers(tree, rel):
     for q, fn, cls in known:
         process_expr(fn, cls, q)
         process(fn, cls, q)
+    # local functions the reference tree does not have ("extract local function"): their calls inside the enclosing function
+    # are written back the same way; the closure reads the enclosing function's variables, which is what the inlined body does
+    ref_nested = load_table().get("__nested__", {}).get(rel, {})
+    for q, fn, cls in known:
+        new_local = {}
+        for st in fn.body:
+            if isinstance(st, ast.FunctionDef) and st.name not in ref_nested.get(q, []) and _simple_helper(st) \
+                    and not any(isinstance(n, (ast.Nonlocal, ast.Global)) for n in ast.walk(st)):
+                new_local[st.name] = st
+        if not new_local:
+            continue
+        saved = {}
+        for nm, h in new_local.items():
+            if (None, nm) in helpers:
+                saved[nm] = helpers[(None, nm)]
+            helpers[(None, nm)] = h
+        before = len(done)
+        process_expr(fn, cls, q)
+        process(fn, cls, q)
+        for nm in new_local:
+            helpers.pop((None, nm), None)
+            if nm in saved:
+                helpers[(None, nm)] = saved[nm]
+        if len(done) > before:
+            # drop the local definitions that are no longer referenced
+            for nm, h in new_local.items():
+                refs = [n for n in ast.walk(fn) if isinstance(n, ast.Name) and n.id == nm and isinstance(n.ctx, ast.Load)]
+                if not refs:
+                    fn.body[:] = [x for x in fn.body if x is not h]
     if done:
         _SpliceStar().visit(tree)
     return done
